@@ -131,18 +131,29 @@ def scenario_disconnect(remote):
 def scenario_client_death(remote):
     """A client process launches a server, then dies without closing."""
     rec = Recorder()
+    # the server inherits the client's stdout/stderr: the pid travels through a file so that no pipe
+    # is kept open by a server that fails to exit
+    import tempfile
+    fd, pidfile = tempfile.mkstemp(prefix='verif-pid-')
+    os.close(fd)
     code = ('import sys, os; sys.path.insert(0, %r)\n'
             'import supp.remote as r\n'
             'e = r.Environment(); e.eval("return 1")\n'
-            'print(e.proc.pid, flush=True); os._exit(0)\n') % os.environ.get('VERIF_REPO', '/repo')
+            'open(%r, "w").write(str(e.proc.pid)); os._exit(0)\n') % (os.environ.get('VERIF_REPO', '/repo'), pidfile)
     t = 'child'
     rec.ev('CallBegin', t, 1)
-    p = subprocess.run([sys.executable, '-c', code], stdout=subprocess.PIPE, stderr=subprocess.PIPE, timeout=60)
     try:
-        pid = int(p.stdout.split()[0])
-    except Exception:
-        rec.ev('CallEnd', t, 1, 'exc', 'ChildFailed', 0, p.stderr.decode(errors='replace')[-200:])
+        p = subprocess.run([sys.executable, '-c', code], stdin=subprocess.DEVNULL, stdout=subprocess.DEVNULL,
+                           stderr=subprocess.DEVNULL, timeout=60)
+        pid = int(open(pidfile).read().split()[0])
+    except Exception as e:  # noqa
+        rec.ev('CallEnd', t, 1, 'exc', 'ChildFailed', 0, repr(e)[-200:])
         return {'name': 'client-death', 'events': rec.events, 'deadlock': False}
+    finally:
+        try:
+            os.unlink(pidfile)
+        except OSError:
+            pass
     rec.ev('Launch', t, 0, '', '', pid)
     rec.ev('Connect', t, 0, 'ok', '', pid)
     rec.ev('CallEnd', t, 1, 'ok')
